@@ -61,10 +61,10 @@ pub struct Probe {
     pub tokio_yield: bool,
 }
 
-#[async_trait]
-impl UserFunction for Probe {
-    async fn call(&self, param: Value) -> FunctionResult {
-        let key = (self.name.to_string(), arg_key(&param));
+impl Probe {
+    /// what a call does on entry: it is recorded in the log and counted
+    fn enter(&self, param: &Value) -> ((String, String), u32) {
+        let key = (self.name.to_string(), arg_key(param));
         self.log.lock().unwrap().push(key.clone());
         let n = {
             let mut c = self.counts.lock().unwrap();
@@ -72,12 +72,17 @@ impl UserFunction for Probe {
             *e += 1;
             *e
         };
+        (key, n)
+    }
+
+    /// the rest of a call: it suspends as often as asked, then answers
+    async fn finish(&self, key: (String, String), n: u32, param: Value) -> FunctionResult {
         if self.tokio_yield {
             for _ in 0..self.suspend {
                 tokio::task::yield_now().await;
             }
             if key.1.contains("\"park\"") && PARK_ONCE.swap(false, std::sync::atomic::Ordering::SeqCst) {
-                    PARKED.fetch_add(1, std::sync::atomic::Ordering::SeqCst);
+                PARKED.fetch_add(1, std::sync::atomic::Ordering::SeqCst);
                 while !PARK_RELEASE.load(std::sync::atomic::Ordering::SeqCst) {
                     tokio::task::yield_now().await;
                 }
@@ -90,6 +95,14 @@ impl UserFunction for Probe {
         }
         Ok(probe_result(self.name, &param))
     }
+}
+
+#[async_trait]
+impl UserFunction for Probe {
+    async fn call(&self, param: Value) -> FunctionResult {
+        let (key, n) = self.enter(&param);
+        self.finish(key, n, param).await
+    }
 
     fn name(&self) -> &'static str {
         self.name
@@ -101,6 +114,34 @@ impl UserFunction for Probe {
         }
         let total: u32 = self.counts.lock().unwrap().iter().filter(|((f, _), _)| f == self.name).map(|(_, c)| *c).sum();
         self.spec.cacheable && total < self.spec.uncacheable_after
+    }
+}
+
+/// A user function written without `async fn`: `call` does its bookkeeping when it is *entered* ("submit now, hand back a
+/// future for the answer") and the returned future only waits and answers. Registered for the name "fd". An
+/// implementation that enters `call` and then does not await the future (or enters it more often than it should) shows up
+/// in the log exactly as an extra invocation does.
+pub struct EagerProbe(pub Probe);
+
+impl UserFunction for EagerProbe {
+    fn call<'life0, 'async_trait>(
+        &'life0 self,
+        param: Value,
+    ) -> std::pin::Pin<Box<dyn std::future::Future<Output = FunctionResult> + Send + 'async_trait>>
+    where
+        'life0: 'async_trait,
+        Self: 'async_trait,
+    {
+        let (key, n) = self.0.enter(&param);
+        Box::pin(async move { self.0.finish(key, n, param).await })
+    }
+
+    fn name(&self) -> &'static str {
+        self.0.name
+    }
+
+    fn cacheable(&self) -> bool {
+        self.0.cacheable()
     }
 }
 
@@ -144,6 +185,26 @@ impl UserFunction for ZstB {
     fn name(&self) -> &'static str {
         "zb"
     }
+}
+
+thread_local! {
+    static EARLIER_SYMBOLS: std::cell::RefCell<Vec<(u8, String, Value)>> = const { std::cell::RefCell::new(vec![]) };
+}
+
+/// Runs `f` with every ruleset built on this thread first given the `earlier` symbol definitions (way, name, value), which
+/// the definitions of the `SetSpec` then replace: a ruleset resolves a name to the value registered last, so nothing in
+/// the outcome may depend on them. Ways 0-2 register the final definitions one by one afterwards, ways 3-5 (same earlier
+/// ways) as one table.
+pub fn with_earlier_symbols<R>(earlier: Vec<(u8, String, Value)>, f: impl FnOnce() -> R) -> R {
+    EARLIER_SYMBOLS.with(|e| *e.borrow_mut() = earlier);
+    struct Reset;
+    impl Drop for Reset {
+        fn drop(&mut self) {
+            EARLIER_SYMBOLS.with(|e| e.borrow_mut().clear());
+        }
+    }
+    let _reset = Reset;
+    f()
 }
 
 /// Everything needed to build one ruleset under test.
@@ -198,6 +259,8 @@ pub fn build(spec: &SetSpec, tokio_yield: bool) -> Built {
         };
         b = if name == DEFAULT_CACHEABILITY_NAME && fs.cacheable {
             b.with_function(DefaultCacheabilityProbe(p))
+        } else if name == "fd" {
+            b.with_function(EagerProbe(p))
         } else if name == "fb" || name == "lp" {
             // registered already boxed, through the batch entry point
             b.with_functions(vec![Box::new(p) as Box<dyn UserFunction + Send + Sync>])
@@ -206,8 +269,28 @@ pub fn build(spec: &SetSpec, tokio_yield: bool) -> Built {
         }
         .expect("harness generates valid function names");
     }
-    for (k, v) in &spec.symbols {
-        b = b.with_symbol(k, v.clone());
+    // definitions that are replaced again below (set by `with_earlier_symbols`): way 0 = with_symbol, 1 = with_symbols
+    // of a table built by insert, 2 = with_symbols of a table built by From
+    let earlier = EARLIER_SYMBOLS.try_with(|e| e.borrow().clone()).unwrap_or_default();
+    for (way, k, v) in &earlier {
+        b = match way % 3 {
+            0 => b.with_symbol(k, v.clone()),
+            1 => {
+                let mut t = Symbols::default();
+                t.insert(k.clone(), v.clone());
+                b.with_symbols(t).expect("with_symbols")
+            }
+            _ => b.with_symbols(Symbols::from(vec![(k.clone(), v.clone())])).expect("with_symbols"),
+        };
+    }
+    let batch_last = earlier.iter().any(|(way, _, _)| *way >= 3);
+    if batch_last {
+        // the final definitions arrive as one table
+        b = b.with_symbols(Symbols::from(spec.symbols.clone())).expect("with_symbols");
+    } else {
+        for (k, v) in &spec.symbols {
+            b = b.with_symbol(k, v.clone());
+        }
     }
     Built { ruleset: b.build(), log }
 }
@@ -219,11 +302,22 @@ pub fn eval_in_ruleset(
     fns: &BTreeMap<String, FnSpec>,
     symbols: &BTreeMap<String, Value>,
 ) -> (Result<Value, reval::Error>, Vec<(String, String)>) {
+    eval_in_ruleset_suspending(expr, facts, fns, symbols, 0)
+}
+
+/// The same with user functions that suspend `suspend` times before they answer.
+pub fn eval_in_ruleset_suspending(
+    expr: &Expr,
+    facts: &Value,
+    fns: &BTreeMap<String, FnSpec>,
+    symbols: &BTreeMap<String, Value>,
+    suspend: u32,
+) -> (Result<Value, reval::Error>, Vec<(String, String)>) {
     let spec = SetSpec {
         rules: vec![("r".into(), expr.clone())],
         fns: fns.clone(),
         symbols: symbols.clone(),
-        suspend: 0,
+        suspend,
     };
     let built = build(&spec, false);
     let mut out = crate::core::block_on(built.ruleset.evaluate_value(facts)).expect("evaluate_value is infallible");
